@@ -44,6 +44,15 @@ impl Compressor512 {
         transmute!(self.cv)
     }
 }
+#[cfg(cryptocorrosion_verif)]
+impl Compressor512 {
+    fn verif_cv(&self) -> [u8; 64] {
+        transmute!(self.cv)
+    }
+    fn verif_set_cv(&mut self, cv: [u8; 64]) {
+        self.cv = transmute!(cv);
+    }
+}
 
 type Block1024 = [u64; 1024 / 64];
 union CvBytes1024 {
@@ -65,6 +74,15 @@ impl Compressor1024 {
     fn finalize_dirty(&mut self) -> Block1024 {
         of1024(&mut self.cv);
         unsafe { CvBytes1024 { cv: self.cv }.block }
+    }
+}
+#[cfg(cryptocorrosion_verif)]
+impl Compressor1024 {
+    fn verif_cv(&self) -> [u8; 128] {
+        unsafe { core::mem::transmute::<compressor::X8, [u8; 128]>(self.cv) }
+    }
+    fn verif_set_cv(&mut self, cv: [u8; 128]) {
+        self.cv = unsafe { core::mem::transmute::<[u8; 128], compressor::X8>(cv) };
     }
 }
 
@@ -132,6 +150,41 @@ macro_rules! impl_digest {
                 *self = $groestl::default();
             }
         }
+
+        /// Verification hook (only with `--cfg cryptocorrosion_verif`): read and overwrite
+        /// the private state so that arbitrary chaining values and block counts can be entered.
+        #[cfg(cryptocorrosion_verif)]
+        impl $groestl {
+            /// (chaining value as stored, `block_counter`, buffer content, buffer position);
+            /// buffer bytes at and beyond the position are reported as zero.
+            pub fn verif_get_state(
+                &self,
+            ) -> ([u8; $bits::USIZE / 8], u64, [u8; $bits::USIZE / 8], usize) {
+                let pos = self.buffer.position();
+                let mut content = [0u8; $bits::USIZE / 8];
+                let zeros = [0u8; $bits::USIZE / 8];
+                let mut b = self.buffer.clone();
+                b.input_block(&zeros[..$bits::USIZE / 8 - pos], |blk| {
+                    content.copy_from_slice(blk)
+                });
+                (self.compressor.verif_cv(), self.block_counter, content, pos)
+            }
+
+            /// Overwrites chaining value (as stored) and `block_counter`; the buffer then
+            /// holds `buffered` (fewer bytes than one block).
+            pub fn verif_set_state(
+                &mut self,
+                cv: [u8; $bits::USIZE / 8],
+                block_counter: u64,
+                buffered: &[u8],
+            ) {
+                assert!(buffered.len() < $bits::USIZE / 8);
+                self.compressor.verif_set_cv(cv);
+                self.block_counter = block_counter;
+                self.buffer = BlockBuffer::default();
+                self.buffer.input_block(buffered, |_| unreachable!());
+            }
+        }
     };
 }
 
@@ -168,6 +221,17 @@ impl digest::Reset for Groestl224 {
         self.0 = Groestl256::new_truncated(224);
     }
 }
+#[cfg(cryptocorrosion_verif)]
+impl Groestl224 {
+    /// Verification hook, see `Groestl256::verif_get_state`.
+    pub fn verif_get_state(&self) -> ([u8; 64], u64, [u8; 64], usize) {
+        self.0.verif_get_state()
+    }
+    /// Verification hook, see `Groestl256::verif_set_state`.
+    pub fn verif_set_state(&mut self, cv: [u8; 64], block_counter: u64, buffered: &[u8]) {
+        self.0.verif_set_state(cv, block_counter, buffered)
+    }
+}
 
 #[derive(Clone, Debug)]
 pub struct Groestl384(Groestl512);
@@ -196,5 +260,16 @@ impl digest::FixedOutputDirty for Groestl384 {
 impl digest::Reset for Groestl384 {
     fn reset(&mut self) {
         *self = Groestl384::default();
+    }
+}
+#[cfg(cryptocorrosion_verif)]
+impl Groestl384 {
+    /// Verification hook, see `Groestl512::verif_get_state`.
+    pub fn verif_get_state(&self) -> ([u8; 128], u64, [u8; 128], usize) {
+        self.0.verif_get_state()
+    }
+    /// Verification hook, see `Groestl512::verif_set_state`.
+    pub fn verif_set_state(&mut self, cv: [u8; 128], block_counter: u64, buffered: &[u8]) {
+        self.0.verif_set_state(cv, block_counter, buffered)
     }
 }
